@@ -9,6 +9,15 @@ import os, sys, json, subprocess, glob, re, time
 WT = "/tmp/confirm_wt"
 OUT = "/verif/seeded"
 
+def touch_patched(patch, wt):
+    """after `git checkout -- .` make sure cargo sees the restored files as changed (mtime granularity)"""
+    import time as _t
+    _t.sleep(1.1)
+    for m in re.finditer(r"^\+\+\+ b/(\S+)", open(patch).read(), re.M):
+        f = os.path.join(wt, m.group(1))
+        if os.path.exists(f):
+            os.utime(f, None)
+
 def sh(cmd, cwd=None, timeout=1800):
     p = subprocess.run(cmd, shell=True, cwd=cwd, capture_output=True, text=True, timeout=timeout,
                        env=dict(os.environ, RUST_BACKTRACE="0", CARGO_NET_OFFLINE="true"))
